@@ -7,15 +7,15 @@
 //! This version uses cell_to_children for expansion and stride-based sibling detection
 //! for compaction.
 
-#[cfg(not(felixpalmer_a5_rs_verif))]
-use std::collections::HashSet;
 #[cfg(felixpalmer_a5_rs_verif)]
 use crate::verif_set::HashSet;
+#[cfg(not(felixpalmer_a5_rs_verif))]
+use std::collections::HashSet;
 
 use crate::core::cell_info::get_num_children;
 use crate::core::serialization::{
-    cell_to_children, cell_to_parent, get_resolution, get_stride, is_first_child,
-    FIRST_HILBERT_RESOLUTION, MAX_RESOLUTION,
+    cell_to_children, cell_to_parent, get_hierarchy_sort_key, get_resolution, get_stride,
+    is_first_child, FIRST_HILBERT_RESOLUTION, MAX_RESOLUTION,
 };
 
 /// Expands a set of A5 cells to a target resolution by generating all descendant cells.
@@ -95,7 +95,9 @@ pub fn compact(cells: &[u64]) -> Result<Vec<u64>, String> {
     // Single sort and dedup
     let unique_cells: HashSet<u64> = cells.iter().copied().collect();
     let mut current_cells: Vec<u64> = unique_cells.into_iter().collect();
-    current_cells.sort_unstable();
+    // Sorted so that siblings are adjacent at every level (plain numeric order is not enough:
+    // resolution 0 IDs interleave with the quintant IDs of other faces)
+    current_cells.sort_unstable_by_key(|&cell| get_hierarchy_sort_key(cell));
 
     // Compact until no more changes
     // No re-sorting needed - parents maintain sorted order!
@@ -165,5 +167,7 @@ pub fn compact(cells: &[u64]) -> Result<Vec<u64>, String> {
         current_cells = result;
     }
 
+    // Hand the result back in numeric order
+    current_cells.sort_unstable();
     Ok(current_cells)
 }
